@@ -217,7 +217,7 @@ func (h *FBDNSDB) ServeDNSWithRCODE(ctx context.Context, w dns.ResponseWriter, r
 		return dns.RcodeServerFailure, nil
 	}
 
-	if loc.Mask > 0 {
+	if loc.ECS {
 		h.stats.IncrementCounter("DNS_location.ecs")
 	} else if loc.LocID[0] == 0 && loc.LocID[1] == 0 {
 		h.stats.IncrementCounter("DNS_location.empty")
